@@ -3,6 +3,7 @@ CONSTANTS
   NR = 1
   Form = "two"
   Alpha = "two1w"
+  XLess = {}
   Export = TRUE
 SPECIFICATION Spec
 INVARIANT TypeOK
